@@ -103,6 +103,21 @@ type c05Case struct {
 	Multi []bool    `json:"multi"` // program has a constructor with >= 2 members (which error is reported may vary)
 	Docs  []string  `json:"docs"`
 	Steps []c05Step `json:"steps"`
+	// Reg[i]: expression i carries Expr-level registrations ($reg = "R" and
+	// $regf(x) = x & "!"), i.e. it is evaluated with bindings of its own
+	Reg []bool `json:"reg,omitempty"`
+}
+
+func (c c05Case) compile(i int) (*jsonata.Expr, *port.Outcome) {
+	e, o := port.Compile(c.Texts[i])
+	if o != nil {
+		return nil, o
+	}
+	if i < len(c.Reg) && c.Reg[i] {
+		e.RegisterVars(map[string]interface{}{"reg": "R"})
+		e.RegisterExts(map[string]jsonata.Extension{"regf": {Func: func(s string) string { return s + "!" }}})
+	}
+	return e, nil
 }
 
 type c05Machine struct {
@@ -114,12 +129,13 @@ type c05Machine struct {
 	evals  []int                   // evaluations per expr
 	gapped []bool                  // evaluated >= 2 times with something else in between
 	lastEv int
+	cur    int // expression of the step being executed
 }
 
 func newC05Machine(c c05Case) (*c05Machine, string) {
 	m := &c05Machine{c: c, seen: map[string]port.Outcome{}, lastEv: -1}
-	for _, t := range c.Texts {
-		e, o := port.Compile(t)
+	for i := range c.Texts {
+		e, o := c.compile(i)
 		if o != nil {
 			return nil, "compile: " + o.String()
 		}
@@ -134,6 +150,9 @@ func newC05Machine(c c05Case) (*c05Machine, string) {
 
 func (m *c05Machine) observe(text string, multi bool, doc int, out port.Outcome, how string) string {
 	key := text + "\x00" + m.c.Docs[doc]
+	if m.cur < len(m.c.Reg) && m.c.Reg[m.cur] {
+		key += "\x00registered" // equal bindings are part of "the same evaluation"
+	}
 	first, ok := m.seen[key]
 	if !ok {
 		m.seen[key] = out
@@ -166,6 +185,7 @@ func (m *c05Machine) step(s c05Step) string {
 	if s.Expr >= len(m.exprs) || s.Doc >= len(m.c.Docs) {
 		return ""
 	}
+	m.cur = s.Expr
 	switch s.Op {
 	case "eval":
 		in, _ := port.DecodeJSON(m.c.Docs[s.Doc])
@@ -179,7 +199,7 @@ func (m *c05Machine) step(s c05Step) string {
 			return msg
 		}
 	case "fresh":
-		e, o := port.Compile(m.c.Texts[s.Expr])
+		e, o := m.c.compile(s.Expr)
 		if o != nil {
 			return "re-compile failed: " + o.String()
 		}
@@ -234,7 +254,7 @@ func genStateful() *rapid.Generator[*ast.Node] {
 	name := rapid.Custom(func(t *rapid.T) *ast.Node { return ast.NameN(rapid.SampledFrom(gen.Names).Draw(t, "n")) })
 	ctxFns := []string{"string", "length", "uppercase", "lowercase", "trim", "number", "abs", "boolean", "keys", "type", "spread"}
 	return rapid.Custom(func(t *rapid.T) *ast.Node {
-		switch rapid.IntRange(0, 15).Draw(t, "shape") {
+		switch rapid.IntRange(0, 17).Draw(t, "shape") {
 		case 0: // chain into a call
 			return ast.N(ast.Chain, small.Draw(t, "lhs"), ast.CallN(rapid.SampledFrom([]string{"power", "substring", "pad", "append", "join", "split", "contains", "round", "substringBefore"}).Draw(t, "fn"), small.Draw(t, "arg")))
 		case 1: // chain of chains
@@ -257,6 +277,10 @@ func genStateful() *rapid.Generator[*ast.Node] {
 			return ast.N(ast.Cond, ast.CallN("exists", name.Draw(t, "c")), &ast.Node{K: ast.Assign, S: "u", C: []*ast.Node{name.Draw(t, "v")}}, ast.VarN("u"))
 		case 10: // function bound outside a block and called
 			return ast.ArrN(ast.CallE(ast.BlockN(ast.VarN("g")), ast.NumN(1)), &ast.Node{K: ast.Assign, S: "g", C: []*ast.Node{ast.LambdaN([]string{"x"}, "", ast.BinN("&", ast.CallN("string", ast.VarN("x")), ast.CallN("string", ast.VarN("u"))))}}, ast.CallE(ast.VarN("g"), name.Draw(t, "a")), &ast.Node{K: ast.Assign, S: "u", C: []*ast.Node{ast.StrN("!")}})
+		case 14: // registered bindings next to a top-level assignment
+			return ast.ArrN(ast.VarN("reg"), ast.VarN("u"), &ast.Node{K: ast.Assign, S: "u", C: []*ast.Node{small.Draw(t, "val")}}, ast.VarN("u"), ast.CallN("exists", ast.VarN("regf")))
+		case 15: // a registered name shadowed by a top-level assignment
+			return ast.ArrN(ast.VarN("reg"), &ast.Node{K: ast.Assign, S: "reg", C: []*ast.Node{name.Draw(t, "v")}}, ast.VarN("reg"))
 		case 11: // a composed function whose first member is a context-defaulting built-in (reached without a call expression)
 			f1 := rapid.SampledFrom([]string{"substringBefore", "substringAfter", "contains", "split", "pad", "match", "join", "lookup", "formatNumber", "replace", "string", "length"}).Draw(t, "f1")
 			f2 := rapid.SampledFrom([]string{"string", "length", "boolean", "type", "count"}).Draw(t, "f2")
@@ -280,7 +304,7 @@ func c05Multi(prog *ast.Node) bool {
 
 // TestC05_Histories is the state-machine check.
 func TestC05_Histories(t *testing.T) {
-	rec := begin(t, "C05", "rapid state machine: pools of 1..4 compiled expressions (chain/partial/context-defaulting/lambda/regex/order-by templates and type-chaotic programs without $random/$shuffle/$now/$millis and without map-order-exposing constructs) and 1..3 inputs; actions eval(i,j), evalFresh(i,j), print(i), up to ~25 steps; invariant: outcome is a function of (text, input); String() and the deep dump of the syntax tree are constant; non-trivial = some expression with a call/chain/partial/lambda was evaluated >= 2 times with another evaluation in between; distinct by the texts + inputs + action sequence")
+	rec := begin(t, "C05", "rapid state machine: pools of 1..4 compiled expressions, a third of them carrying Expr-level registered variables/extensions (chain/partial/context-defaulting/lambda/regex/order-by templates and type-chaotic programs without $random/$shuffle/$now/$millis and without map-order-exposing constructs) and 1..3 inputs; actions eval(i,j), evalFresh(i,j), print(i), up to ~25 steps; invariant: outcome is a function of (text, input); String() and the deep dump of the syntax tree are constant; non-trivial = some expression with a call/chain/partial/lambda was evaluated >= 2 times with another evaluation in between; distinct by the texts + inputs + action sequence")
 	defer finish(t, rec)
 	progs := genStateful()
 	docs := gen.Doc(gen.DocOpts{NestedArrays: 0.2})
@@ -299,6 +323,7 @@ func TestC05_Histories(t *testing.T) {
 				continue
 			}
 			c.Texts = append(c.Texts, text)
+			c.Reg = append(c.Reg, rapid.IntRange(0, 2).Draw(rt, "registered") == 0)
 			c.Multi = append(c.Multi, c05Multi(p))
 			asts = append(asts, p)
 		}
